@@ -262,7 +262,7 @@ func genChain(rng *core.Rand, pool []upSpec) []node {
 }
 
 func (prop) Generate(rng *core.Rand, tier string, emit func(string)) {
-	total := 24000
+	total := 20000
 	switch tier {
 	case "thorough":
 		total = 500000
